@@ -33,12 +33,30 @@ BehaviorOK(pr) ==
   \A p, q \in DOMAIN pr :
      Len(ItemsP(pr[p])) >= Len(ItemsP(pr[q])) => IsSuffixSeq(ItemsP(pr[q]), ItemsP(pr[p]))
 
+(* C06: when the scripts only emit items and subscribe, every subscriber that was there before the threads *)
+(* started receives every item; a subscriber that joins meanwhile receives a subset, nothing else           *)
+RECURSIVE AllStims(_)
+AllStims(ths) == IF ths = <<>> THEN <<>> ELSE Head(ths) \o AllStims(Tail(ths))
+RECURSIVE EmittedItems(_)
+EmittedItems(ss) == IF ss = <<>> THEN <<>>
+                    ELSE (IF Head(ss).k = "emit" /\ Head(ss).t = "N" THEN <<Head(ss).v>> ELSE <<>>) \o EmittedItems(Tail(ss))
+OnlyItemsAndSubs(ss) == \A i \in 1..Len(ss) : (ss[i].k = "emit" /\ ss[i].t = "N") \/ ss[i].k = "sub"
+IsSetup(name) == name \in {"s1", "s2", "s3"}
+Delivery(r, C) ==
+  LET ss == AllStims(C.threads)
+      em == EmittedItems(ss) IN
+  (OnlyItemsAndSubs(ss) /\ Op(C.root) = "subject") =>
+     \A p \in DOMAIN r.probes :
+        /\ \A i \in 1..Len(ItemsP(r.probes[p])) : SeqContains(em, ItemsP(r.probes[p])[i])
+        /\ IsSetup(p) => \A i \in 1..Len(em) : SeqContains(ItemsP(r.probes[p]), em[i])
+
 Judge(r) ==
   LET C == Cases[r.c]
       chk == C.checks
       isBeh == "C12" \in chk
       f(cond, id) == IF id \in chk /\ cond THEN <<id>> ELSE <<>>
   IN f(r.overlap \/ r.stuck \/ r.fault # "" \/ (~isBeh /\ ~CommonOrder(r.probes)), "C10")
+     \o f(~r.stuck /\ r.fault = "" /\ ~Delivery(r, C), "C06")
      \o f(r.late, "C02")
      \o f(r.cnt[CntFin] # 1, "C15")
      \o f("F14" \notin KF /\ ~BehaviorOK(r.probes), "C12")
